@@ -58,15 +58,14 @@ impl Utf16Writer {
             }
         }
 //@end
-// the UTF-16 payload encoder: ASSUMED contract (std char::encode_utf16 / to_le_bytes inside a loop over chars())
+// the UTF-16 payload encoder: contract discharged on the real loops in unit v_utf16 (same contract file)
 //@extract sudachi/src/dic/build/primitives.rs :: impl Utf16Writer :: fn write
 //@  rw R15 1 custom
 //@  | <W: Write, T: AsRef<str>>\(&mut self, w: &mut W, data: T\)
 //@  > <W: VWrite>(&mut self, w: &mut W, data: &str)
-//@  stub ASSUMED_utf16_payload
+//@  stub v_utf16
 //@  ret r
-//@  spec
-        ensures r is Ok ==> final(w).sink() == old(w).sink() + enc_str(data@) && r->Ok_0 == enc_str(data@).len() && r->Ok_0 <= 600000,
+//@  specfile specs/utf16_write.contract
 //@end
 //@extract sudachi/src/dic/build/primitives.rs :: impl Utf16Writer :: fn write_empty_if_equal
 //@  rw R15 1 custom
@@ -80,7 +79,8 @@ impl Utf16Writer {
 //@  > if !str_eq(data, other) {
 //@  ret r
 //@  spec
-        ensures r is Ok ==> final(w).sink() == old(w).sink() + enc_str(empty_if_equal(data@, other@)) && r->Ok_0 == enc_str(empty_if_equal(data@, other@)).len() && r->Ok_0 <= 600000,
+        ensures r is Ok ==> final(w).sink() == old(w).sink() + enc_str(empty_if_equal(data@, other@)) && r->Ok_0 == enc_str(empty_if_equal(data@, other@)).len() && r->Ok_0 <= 600000
+            && str_fits(empty_if_equal(data@, other@)),
 //@  atstart
         proof { reveal_strlit(""); assert(""@ =~= Seq::<char>::empty()); }
 //@end
@@ -193,6 +193,8 @@ impl RawLexiconEntry {
         ensures
             // C05: the bytes appended are the record of this entry, field by field in the order the reader expects
             r is Ok ==> final(w).sink() == old(w).sink() + wi_bytes(*self) && r->Ok_0 == wi_bytes(*self).len(),
+            // success means every text fitted its field: the hypotheses of theorem_record_roundtrip
+            r is Ok ==> str_fits(e_headword(*self)) && str_fits(empty_if_equal(e_norm(*self), e_headword(*self))) && str_fits(empty_if_equal(e_reading(*self), e_headword(*self))),
 //@  atstart
         let ghost s0 = w.sink();
         broadcast use axiom_str_len_fits;
